@@ -55,10 +55,15 @@ CHECKS = {
          "For each seeded configuration the uninterrupted twin run defines evaluation indices 0..m; every k<m (sub-sampled above 10/16 and counted) is used as crash point with a fault kind drawn per (configuration,k). Final structure, scheme, lmax, point count (exact) and result (rounding bound) must equal the twin's; a restored instance must give bitwise the same interpolation, result and point count as the saved one; failed saves must raise and leave the live instance able to reach the twin's end state; incomplete files must be refused on restore.",
          "Trusted: SimFS semantics, dill itself. Not injected: bit flips inside a successfully written pickle (no integrity promise in the property). Stubs: file system, integrand values, keyed estimator answers without evaluation counter (real estimators in a third of the runs), clock.",
          "DESIGN.md section 5, C14"),
+ "C12": ("function_sim", "exploration",
+         "deterministic simulation: seeded interleavings of single / batch / vectorised evaluations, cache resets and cache deactivation against every built-in function family, with an un-cached twin and a dict+set reference cache as oracles",
+         "Seeded search over (function family, parameters, history of <= 30 cache-relevant operations incl. empty batch, duplicates, repeated points, 2-D/3-D vectorised calls). Values equal the un-cached twin's eval at every position of every interleaving; shapes are (#points, output_length); the evaluation counter equals the reference cache's count while caching is on. The analytic-integral clause is a pure function and is evaluated as a stateless side-oracle on the same runs (counted separately): analytic integral over seeded boxes vs tensor Gauss-Legendre quadrature split at the family's kinks. Six slips found here were repaired.",
+         "Trusted: harness twin/reference cache, Gauss-Legendre quadrature with 14 nodes per smooth piece (midpoint rule with 12% tolerance for the diagonal-discontinuity family, dim <= 3).",
+         "DESIGN.md section 5, C12"),
 }
 
 _P = "claimed by DESIGN.md but the check is not built yet in this tree; listed here until its engine is registered"
-PENDING = {k: _P for k in ["C12", "C15", "C17", "C18", "C19"]}
+PENDING = {k: _P for k in ["C15", "C17", "C18", "C19"]}
 
 def main():
     checks = []
